@@ -1,7 +1,7 @@
 (* C07 -- every connection attempt yields a well-formed, finite event sequence.  Statements only. *)
 From Coq Require Import List NArith Bool.
 From Model Require Import Conn.
-From Proofs Require Import ShapeFacts RunFacts.
+From Proofs Require Import ReadyFacts ShapeFacts RunFacts.
 Import ListNotations.
 
 (* for every configuration, every application strategy (reacting to everything it has observed with sends, closes or by
@@ -30,3 +30,31 @@ Proof. intros. unfold regular. rewrite H. reflexivity. Qed.
 
 Example C07_nonvacuous : run_shape [EvConnecting; EvConnected; EvReady None false; EvPoll; EvText []; EvDisconnected false].
 Proof. apply (ShEnded [EvReady None false; EvPoll; EvText []] false). repeat constructor. Qed.
+
+(* Ready occurs at most once, and Text, Binary, Ping, Pong, Poll, Closing, Closed (and Unresponsive) occur only after
+   it: the chronological event list of every run -- any configuration, any application strategy, any masking keys,
+   write faults and zlib results, any connect outcome, any script of selector/recv steps -- is either free of Ready and
+   of all those events, or  pre ++ Ready :: post  with pre free of them and post free of a second Ready. *)
+Theorem C07_ready_once_and_first : forall cf app keys wf zt ct cn steps,
+  ready_shape (rev (evs (k_tr (run cf app (init keys wf zt ct) cn steps)))).
+Proof. exact run_ready_shape. Qed.
+Print Assumptions C07_ready_once_and_first.
+
+(* the shape does exclude something: a message before Ready, and a second Ready *)
+Example C07_ready_shape_discriminates :
+  ~ ready_shape [EvConnecting; EvConnected; EvText []; EvReady None false] /\
+  ~ ready_shape [EvConnecting; EvConnected; EvReady None false; EvReady None false] /\
+  ready_shape [EvConnecting; EvConnected; EvReady None false; EvPoll; EvText []; EvDisconnected true].
+Proof.
+  split; [|split].
+  - intros H. inversion H as [l F|pre p d post Fq Fp E].
+    + inversion F as [|? ? _ F1]; subst. inversion F1 as [|? ? _ F2]; subst. inversion F2 as [|? ? [_ Q] _]; subst. discriminate.
+    + destruct pre as [|a [|b [|c0 [|d0 pre]]]]; cbn in E; inversion E; subst; try (destruct pre; discriminate).
+      inversion Fq as [|? ? _ F1]; subst. inversion F1 as [|? ? _ F2]; subst. inversion F2 as [|? ? [_ Q] _]; subst. discriminate.
+  - intros H. inversion H as [l F|pre p d post Fq Fp E].
+    + inversion F as [|? ? _ F1]; subst. inversion F1 as [|? ? _ F2]; subst. inversion F2 as [|? ? [Q _] _]; subst. discriminate.
+    + destruct pre as [|a [|b [|c0 [|d0 pre]]]]; cbn in E; inversion E; subst; try (destruct pre; discriminate).
+      * inversion Fp as [|? ? Q _]; subst. discriminate.
+      * inversion Fq as [|? ? _ F1]; subst. inversion F1 as [|? ? _ F2]; subst. inversion F2 as [|? ? [Q _] _]; subst. discriminate.
+  - apply (RsOnce [EvConnecting; EvConnected] None false [EvPoll; EvText []; EvDisconnected true]); repeat constructor.
+Qed.
